@@ -63,6 +63,9 @@ def extract_formula(src):
     inits = {}
     for mm in re.finditer(r'static constexpr\s+unsigned\s+(\w+)\s*=\s*([^;]+);', body): inits[mm.group(1)] = ' '.join(mm.group(2).split())
     dm = re.search(r'#\s*define\s+GCH_SMALL_VECTOR_DEFAULT_SIZE\s+(\d+)', src)
+    am = re.search(r'using\s+empty_small_vector\s*=\s*small_vector\s*<([^;]*)>\s*;', body)
+    alias_args = [a.strip() for a in am.group(1).split(',')] if am else None
+    inits['__empty_alias__'] = alias_args
     return inits, int(dm.group(1)) if dm else None
 
 def formula_value(inits, total, S, E):
@@ -72,6 +75,7 @@ def formula_value(inits, total, S, E):
         if name in done: return done[name]
         e2 = dict(env)
         for k in inits:
+            if k.startswith('__'): continue
             if k != name and re.search(r'\b%s\b' % k, inits[name]): e2[k] = val(k)
         done[name] = Parser(inits[name], e2).expr(); return done[name]
     return val('value')
@@ -182,6 +186,20 @@ def main():
                 if szof != exact: violations.append({'msg': 'C19: zero-capacity container with a stateless allocator is not one pointer plus two size_type fields (rounded to pointer alignment)', 'cell': [S, A, a, w, p, n], 'sizeof': szof, 'expected': exact})
             if len(samples) < 5: samples.append({'compiler': comp, 'sizeof_T': S, 'alignof_T': A, 'alloc_state_bytes': a, 'size_type_bytes': w, 'N': n, 'sizeof': szof, 'model': want})
     if mism: framework.append('layout model disagrees with the compiler on %d instantiations, e.g. %s' % (len(mism), json.dumps(mism[:2])))
+    # the extracted formula, evaluated on the same concrete cells, must reproduce the compiler's default_buffer_size<A>::value
+    fmism = []
+    def BV(x): return z3.BitVecVal(x, 32)
+    if total is not None and not framework:
+        alias0 = inits.get('__empty_alias__')
+        for comp, rr in rows.items():
+            for (S_, A_, a_, w_, p_, n_, szof, alof, dflt, off, icap) in rr:
+                if n_ != 0: continue
+                aa_ = (8 if p_ else 1) if a_ else 1
+                if alias0 is not None and len(alias0) == 2: Ec = py_L(0, S_, A_, 0, 1, 8)
+                else: Ec = py_L(0, S_, A_, a_, aa_, w_)
+                fv = z3.simplify(formula_value(inits, total, BV(S_), BV(Ec)))
+                if fv.as_long() != dflt: fmism.append({'compiler': comp, 'cell': [S_, A_, a_, w_, p_], 'compiled_default': dflt, 'formula': fv.as_long()})
+        if fmism: framework.append('the formula extracted from the header does not reproduce default_buffer_size<A>::value on %d instantiations, e.g. %s' % (len(fmism), json.dumps(fmism[:2])))
 
     # ---- (2) z3: formula vs "largest n with L(n) <= total (or 1)"
     queries = []; solver_s = 0.0
@@ -189,11 +207,18 @@ def main():
     dom = [z3.UGE(S, 1), z3.ULE(S, 72), z3.Or([A == x for x in (1, 2, 4, 8, 16, 32, 64)]), z3.URem(S, A) == 0,
            z3.ULE(a, 24), z3.Or(aa == 1, aa == 8), z3.Or(a == 0, z3.URem(a, aa) == 0)   # allocator state as a byte array (alignment 1) or a pointer array (alignment 8): what the validation programs instantiate
           , z3.Or([w == x for x in (1, 2, 4, 8)])]
+    alias = inits.get('__empty_alias__')
+    def empty_size(S_, A_, a_, aa_, w_):
+        if alias is not None and len(alias) == 3 and alias[0] == 'value_type' and alias[1] == '0' and alias[2] == 'allocator_type':
+            return L(z3.BitVecVal(0, 32), S_, A_, a_, aa_, w_)
+        if alias is not None and len(alias) == 2 and alias[0] == 'value_type' and alias[1] == '0':
+            return L(z3.BitVecVal(0, 32), S_, A_, z3.BitVecVal(0, 32), z3.BitVecVal(1, 32), z3.BitVecVal(8, 32))   # default allocator std::allocator<T>
+        framework.append('unrecognised definition of default_buffer_size::empty_small_vector: %r' % (alias,)); return L(z3.BitVecVal(0, 32), S_, A_, a_, aa_, w_)
     def run_query(name, extra, kind):
         nonlocal solver_s
         if total is None or framework: return None
         s = z3.Solver(); s.set('timeout', 120000)
-        E = L(z3.BitVecVal(0, 32), S, A, a, aa, w)
+        E = empty_size(S, A, a, aa, w)
         v = formula_value(inits, total, S, E)
         T = z3.BitVecVal(total, 32)
         n = z3.BitVec('n', 32)
